@@ -347,7 +347,55 @@ pub fn gen_gc_scenario(rng: &mut Prng) -> (Module, String) {
     let mut fns: Vec<(String, Function)> = Vec::new();
     let mut main: Vec<Card> = vec![set("_", nil())];
     let name: &str;
-    match rng.below(8) {
+    match rng.below(10) {
+        8 | 9 => {
+            name = "gc:temporary-closure-calls-down";
+            // a closure that only its own call frame refers to calls further down; collections run while its frame is
+            // *below* the top of the call stack; afterwards it still reads what it captured
+            let depth = rng.range(1, 4);
+            fns.push((
+                "down".into(),
+                func(
+                    &["d"],
+                    vec![
+                        set("_", nil()),
+                        set("tmp", native("concat", vec![strc("d"), read("d")])),
+                        ifelse(bin("less", int(0), read("d")), comp(vec![set("tmp", call("down", vec![bin("sub", read("d"), int(1))]))]), comp(vec![set("tmp", native("pair", vec![read("tmp"), read("d")]))])),
+                        un("ret", read("tmp")),
+                    ],
+                ),
+            ));
+            let callee: Card = match rng.below(5) {
+                0 => call("down", vec![int(depth)]),
+                1 => native("apply1", vec![CardBody::Function("down".into()).into(), int(depth)]),
+                2 => dyncall(CardBody::Function("down".into()).into(), vec![int(depth)]),
+                // a second temporary closure below the first
+                3 => dyncall(closure(&["q"], vec![set("w", call("down", vec![read("q")])), un("ret", native("pair", vec![read("w"), read("cap2")]))]), vec![int(depth)]),
+                _ => call("std.map", vec![closure(&["k", "v"], vec![un("ret", call("down", vec![read("v")]))]), CardBody::Array(vec![int(0), int(depth)]).into()]),
+            };
+            let n = rng.range(1, 4);
+            main.push(set("base", native("concat", vec![strc("b"), int(1)])));
+            main.push(set("cap2", native("pair", vec![strc("c"), int(2)])));
+            main.push(repeat(
+                int(n),
+                Some("i"),
+                comp(vec![
+                    set("_", nil()),
+                    log(dyncall(
+                        closure(
+                            &["m"],
+                            vec![
+                                set("before", native("concat", vec![read("base"), read("m")])),
+                                set("r", callee.clone()),
+                                // read the captured variables after the callee returned
+                                un("ret", native("pair", vec![native("concat", vec![read("base"), read("before")]), native("pair", vec![read("r"), read("cap2")])])),
+                            ],
+                        ),
+                        vec![read("i")],
+                    )),
+                ]),
+            ));
+        }
         0 => {
             name = "gc:table-growth";
             let n = rng.range(6, 40);
@@ -459,6 +507,58 @@ pub fn gen_gc_scenario(rng: &mut Prng) -> (Module, String) {
             main.push(foreach(None, None, Some("f"), read("t"), comp(vec![set("_", nil()), log(native("apply0", vec![read("f")]))])));
         }
     }
+    let mut root = Module::default();
+    root.functions = fns;
+    root.functions.push(("main".to_string(), func(&[], main)));
+    (root, name.to_string())
+}
+
+/// host-function calls whose arguments are temporaries (only the argument slots refer to them) while the host function
+/// allocates or re-enters the script and uses its parameters afterwards (C18 under collections)
+pub fn gen_host_gc_scenario(rng: &mut Prng) -> (Module, String) {
+    let mut fns: Vec<(String, Function)> = Vec::new();
+    let mut main: Vec<Card> = vec![set("_", nil())];
+    let tmp = |rng: &mut Prng, tag: &str| -> Card {
+        // (no Array cards here: an Array in argument position declares its hidden local among temporaries, which is
+        // outside the well-scoped class)
+        match rng.below(4) {
+            0 => native("concat", vec![strc(tag), read("i")]),
+            1 => native("pair", vec![strc(tag), read("i")]),
+            2 => native("wrap1", vec![native("concat", vec![read("i"), strc(tag)])]),
+            _ => closure(&[], vec![un("ret", read("i"))]),
+        }
+    };
+    fns.push(("mk".into(), func(&["m"], vec![set("_", nil()), set("s", native("concat", vec![strc("made"), int(1)])), un("ret", native("pair", vec![read("s"), read("m")]))])));
+    let n = rng.range(1, 6);
+    let name = match rng.below(5) {
+        0 => {
+            let c = native("wrap1", vec![tmp(rng, "a")]);
+            main.push(repeat(int(n), Some("i"), comp(vec![set("_", nil()), log(c)])));
+            "host-gc:wrap1"
+        }
+        1 => {
+            let c = native("wrap3", vec![tmp(rng, "a"), tmp(rng, "b"), tmp(rng, "c")]);
+            main.push(repeat(int(n), Some("i"), comp(vec![set("_", nil()), log(c)])));
+            "host-gc:wrap3"
+        }
+        2 => {
+            let c = native("wrap4", vec![tmp(rng, "a"), tmp(rng, "b"), tmp(rng, "c"), tmp(rng, "d")]);
+            main.push(repeat(int(n), Some("i"), comp(vec![set("_", nil()), log(c)])));
+            "host-gc:wrap4"
+        }
+        3 => {
+            let c = native("keep1", vec![CardBody::Function("mk".into()).into(), tmp(rng, "k")]);
+            main.push(repeat(int(n), Some("i"), comp(vec![set("_", nil()), log(c)])));
+            "host-gc:keep1"
+        }
+        _ => {
+            // the native is a value and is called dynamically
+            let which = *rng.pick(&["wrap1", "id1"]);
+            let c = dyncall(CardBody::NativeFunction(which.into()).into(), vec![tmp(rng, "v")]);
+            main.push(repeat(int(n), Some("i"), comp(vec![set("_", nil()), log(native("wrap1", vec![c]))])));
+            "host-gc:native-value"
+        }
+    };
     let mut root = Module::default();
     root.functions = fns;
     root.functions.push(("main".to_string(), func(&[], main)));
